@@ -64,9 +64,46 @@ fn digest_of(der: &[u8]) -> Sha256Digest {
 }
 
 fn hashes_for(set: HashSet, h: &Sha256Digest, rng: &mut Rng) -> Vec<Sha256Digest> {
+    // a digest that is not the leaf's: random, or derived from the leaf's own digest so that a
+    // sloppy comparison (a prefix, a checksum of the bytes, a byte-order slip) would take it for
+    // a match whatever certificate was generated - same bytes with one bit flipped in two
+    // positions (XOR and sum of the bytes nearly unchanged), first / last byte changed,
+    // reversed, rotated
+    let hb: [u8; 32] = *h.as_ref();
     let other = |rng: &mut Rng| {
         let mut b = [0u8; 32];
-        b.copy_from_slice(&rng.seed32());
+        match rng.below(8) {
+            0 => {
+                b = hb;
+                let (i, j) = (rng.usize(0, 31), rng.usize(0, 31));
+                let bit = 1u8 << rng.below(8);
+                b[i] ^= bit;
+                b[if j == i { (j + 1) % 32 } else { j }] ^= bit;
+            }
+            1 => {
+                b = hb;
+                b[31] ^= 0x01;
+            }
+            2 => {
+                b = hb;
+                b[0] ^= 0x80;
+            }
+            3 => {
+                b = hb;
+                b.reverse();
+                if b == hb {
+                    b[5] ^= 1;
+                }
+            }
+            4 => {
+                b = hb;
+                b.rotate_left(1);
+                if b == hb {
+                    b[5] ^= 1;
+                }
+            }
+            _ => b.copy_from_slice(&rng.seed32()),
+        }
         Sha256Digest::new(b)
     };
     match set {
